@@ -558,10 +558,28 @@ class FreshProcessPool:
         self.workers = workers
 
     def map(self, fn, *iterables):
-        from concurrent.futures import ProcessPoolExecutor
+        from concurrent.futures import ProcessPoolExecutor, wait
 
-        with ProcessPoolExecutor(self.workers, initializer=_quiet_child) as pp:
-            return iter(list(pp.map(fn, *iterables)))
+        # Executor.map spelled out (submit every call, hand the results back in input order, re-raise on retrieval) so
+        # that the pool is shut down only after EVERY future is settled: CPython 3.12's manager thread joins the
+        # queue feeder thread while holding the shutdown lock the feeder's pickling-error handler needs — shutting
+        # down while a second unpicklable chunk is still being fed deadlocks the interpreter.
+        pp = ProcessPoolExecutor(self.workers, initializer=_quiet_child)
+        try:
+            futs = [pp.submit(fn, *args) for args in zip(*iterables)]
+            _, pending = wait(futs, timeout=300)
+            if pending:
+                for pr in list(getattr(pp, "_processes", {}).values()):
+                    pr.kill()
+                raise InfraError("process pool did not settle within 300 s")
+        finally:
+            pp.shutdown(wait=True, cancel_futures=True)
+
+        def it():
+            for f in futs:
+                yield f.result()
+
+        return it()
 
 
 class RealThreadPool:
@@ -1124,11 +1142,13 @@ def k1_defaults(ctx: Ctx):
         chunks = [list(a[1]) for a in rec.submitted[0][1]] if rec.submitted else None
         ctx.case(("chunk-defaults", n), sample={"n": n, "chunks": str(chunks)})
         ctx.traces += 1
-        if any(v != want for v in outs.values()) or chunks != [xs]:
+        if any(v != want for v in outs.values()):
             ctx.witness("execute_concurrently:defaults", "execute_concurrently with its optional arguments left out / given by keyword",
                         {"n": n, "worker": "lambda k, xs: [(k, x) for x in xs]"},
-                        {"results": {k: str(v)[:200] for k, v in outs.items()}, "expected": str(want)[:200],
-                         "chunks_with_default_concurrency": str(chunks)[:200]})
+                        {"results": {k: str(v)[:200] for k, v in outs.items()}, "expected": str(want)[:200]})
+        elif chunks != [xs]:
+            ctx.disagree("default-concurrency", {"n": n, "call": "execute_concurrently(fn, common, inputs, executor)"},
+                         str(chunks)[:200], str([xs])[:200])
 
 
 def k1_chunking(ctx: Ctx, extra=()):
@@ -1294,17 +1314,10 @@ def k2_cases(ctx: Ctx, eps, plan):
         ctx.case((ep.name, json.dumps(b, sort_keys=True, default=str), exspec, c_in), nontrivial=(n >= 2 and c >= 2),
                  sample={"entry_point": ep.name, "n": n, "concurrency": c_in, "executor": exspec, "sequential": str(seq)[:160]})
         if c_call is None and isinstance(ex, InlineExecutor) and ex.submitted and len(ex.submitted[-1][1]) != 1:
-            ctx.witness(f"default-concurrency:{ep.name}", f"{ep.name}: created without a concurrency argument (documented default 1) "
-                        f"the batch is submitted as {len(ex.submitted[-1][1])} chunks",
-                        {"entry_point": ep.name, "batch": b, "executor": exspec, "concurrency": "default"},
-                        {"chunks_submitted": len(ex.submitted[-1][1])})
-        ctx.traces += 1
-        ctx.count("entry_point", ep.name)
-        ctx.count("executor", exspec.split(":")[0])
-        ctx.count("batch", "n=0" if n == 0 else ("n=1" if n == 1 else ("n<c" if n < c else ("c|n" if c > 0 and n % c == 0 else "c∤n or c<=0"))))
-        if isinstance(ex, SchedExecutor):
-            ctx.count("sched_points", None, ex.points)
-            ctx.count("sched_switches", None, ex.switches)
+            # not a violation of the property by itself (the results are judged below): the model's chunking for the
+            # default concurrency 1 is one chunk
+            ctx.disagree("default-concurrency", {"entry_point": ep.name, "batch": b, "executor": exspec, "concurrency": "default"},
+                         f"{len(ex.submitted[-1][1])} chunks submitted", "1 chunk (concurrency defaults to 1)")
         # (1) oracle validation of the sequential path
         if seq[0] == "ok":
             want = ep.expected(b)
@@ -1965,6 +1978,15 @@ def k6_general_samplers(ctx: Ctx, batches=None):
                 ctx.witness(key, f"create_qulacs_*_{name}_sampler: the batch call does not return, per input and in input order, "
                                  "what the same sampler returns for that input alone",
                             {"general_sampler_batch": b}, {"batch_call": str(got)[:400], "one_call_per_input": str(sing)[:400]})
+        elif got != ("ok", want):
+            key = f"general-sampler-oracle:{name}"
+            seen = ctx.extra.setdefault("witness_keys", {})
+            seen[key] = seen.get(key, 0) + 1
+            if seen[key] <= 3:
+                ctx.witness(key, f"{name}: batch and one-call-per-input agree with each other but not with the documented behaviour "
+                                 "(basis-state circuit, noise model = deterministic bit flip after every gate or none: every shot "
+                                 "yields the one computed bit string)",
+                            {"general_sampler_batch": b}, {"batch_call": str(got)[:400], "oracle": str(want)[:400]})
 
 
 # ---------------------------------------------------------------------------
